@@ -103,7 +103,7 @@ PROPS["C18"] = dict(
 )
 
 PROPS["C16"] = dict(
-    pkgs=["fractal/protocol"], level="exploration", death_is_violation=True,
+    pkgs=["fractal/protocol", "fractal/connection"], level="exploration", death_is_violation=True,
     quick=dict(checks=6000, shards=8, timeout=500),
     thorough=dict(checks=240000, shards=16, timeout=2400),
     technique="property-based testing: round trip of generated messages of all six types; totality on arbitrary bytes and structure-aware JSON mutations with recover-inside-property; re-encode fixed point; measured allocation bound at the receive limit",
